@@ -1,6 +1,7 @@
 """C11: the debugger shows the true state, steps back exactly, never crashes."""
 import os
 import random
+import re
 from collections import Counter
 
 from . import common as C
@@ -173,7 +174,37 @@ def run(prop, tier, seed):
         infos.append(cs)
     scripts = [gen_script(rng, len(cs)) for cs in infos]
     st = C.run_impl(["dbgstates 400 " + G.cps(p) for p in progs])
-    states = [[bytes.fromhex(h).decode("utf-8") for h in s.split(",")] if s else [] for s in st]
+    states = [[bytes.fromhex(h).decode("utf-8") for h in s.split("|")[0].split(",")] if s.split("|")[0] else [] for s in st]
+    # what a state dump has to show: the selected stack and every non-empty stack with its elements in order (read through
+    # the State API); the layout of the dump is free
+    truths = []
+    for s in st:
+        tl = []
+        for t in (s.split("|")[1].split(",") if "|" in s and s.split("|")[1] else []):
+            cur, _, rest = t.partition(" ")
+            stacks = []
+            for part in (rest.split(";") if rest else []):
+                i, _, vals = part.partition(":")
+                stacks.append((int(i), [bytes.fromhex(v).decode("utf-8") for v in vals.split(".") if v]))
+            tl.append((int(cur), stacks))
+        truths.append(tl)
+
+    def shows(text, truth):
+        cur, stacks = truth
+        if not re.search(r"(?<![\d/])%d(?![\d/])" % cur, text):
+            return "the selected stack %d" % cur
+        for i, elems in stacks:
+            pat = r"(?<![\d/])%d(?![\d/])" % i + "".join(r".*?" + re.escape(e) for e in elems)
+            if not re.search(pat, text, re.S):
+                return "stack %d = [%s]" % (i, ", ".join(elems))
+        return None
+    incomplete = []
+    for k in range(n):
+        for j, (txt, tr) in enumerate(zip(states[k], truths[k])):
+            miss = shows(txt, tr)
+            if miss:
+                incomplete.append((k, j, miss, txt))
+                break
     model = C.run_model(["debug 1 1 20000 %s %s" % (G.cps(p), ";".join(G.cps(l + "\n") for l in sc)) for p, sc in zip(progs, scripts)])
 
     def real(k):
@@ -231,6 +262,11 @@ def run(prop, tier, seed):
         V.violation(ident, "debugger on %r with commands %r: %s; transcript %r, expected %r, status %s, stderr %r"
                     % (progs[k], scripts[k], kind, got[-300:], want[-300:], cls, gerr[-200:]),
                     dict(program=progs[k], script=scripts[k], transcript=got, expected=want, status=cls, stderr=gerr))
+    if incomplete:
+        k, j, miss, txt = min(incomplete, key=lambda x: (x[1], len(progs[x[0]])))
+        V.violation("debugger:state-display-incomplete",
+                    "the state dump after %d steps of %r does not show %s: %r" % (j, progs[k], miss, txt),
+                    dict(program=progs[k], script=["next"] * j + ["state"], missing=miss, shown=txt))
     if not pc["ok"]:
         V.violation("proof:" + prop, "proof obligations of %s do not check: %s" % (prop, "; ".join(pc["problems"])),
                     dict(theorem_file="coq/Props/%s.v" % prop, problems=pc["problems"]), found_input=False)
@@ -239,11 +275,12 @@ def run(prop, tier, seed):
         checker_cmd="make -C coq Props/%s.vo && coqc -Q coq HV coq/Props/%s.v (Print Assumptions) ; python3 tools/check.py --property %s --tier %s"
                     % (prop, prop, prop, tier),
         trusted_base=C.TRUSTED_BASE, axioms=pc["axioms"], proof_files=pc["files"],
-        evaluations=n * 3, distinct_nontrivial=len(distinct),
+        evaluations=n * 3 + sum(len(t) for t in truths), distinct_nontrivial=len(distinct),
         rule="input-free programs (random, counting loops, exits, an encoding error after output) x command scripts drawn from the whole "
              "vocabulary incl. abbreviations, unknown words, `break N` with N in {0, len-1, len, len+1, huge, non-numeric, signed}, `previous` "
              "at the start, `run` to completion/breakpoint/exit; `hyeong debug --color never FILE` transcript compared exactly with the "
-             "rendering of the extracted L1 debugger model, state dumps taken from the library after the same number of steps; scripts "
+             "rendering of the extracted L1 debugger model, state dumps taken from the library after the same number of steps — and every such "
+             "dump must show the selected stack and every non-empty stack with its elements in order (read through the State API); scripts "
              "of at least three commands are non-trivial",
         samples=[dict(program=progs[i][:60], script=scripts[i][:8], transcript=reals[i][1].decode("utf-8", "replace")[-200:]) for i in range(0, n, max(1, n // 5))][:6],
         histogram=dict(hist), property_failures=len(fails))
